@@ -1037,7 +1037,7 @@ func (r *RouteTrie) RemovePool(cidr ip.CIDR) {
 }
 
 func (r *RouteTrie) UpdateBlockRoute(cidr ip.CIDR, nodeName string) {
-	r.updateCIDR(cidr, func(ri *RouteInfo) {
+	changed := r.updateCIDR(cidr, func(ri *RouteInfo) {
 		block := Block{NodeName: nodeName}
 
 		if len(ri.Blocks) == 0 {
@@ -1046,13 +1046,50 @@ func (r *RouteTrie) UpdateBlockRoute(cidr ip.CIDR, nodeName string) {
 			ri.Blocks[0] = block
 		}
 	})
+	if !changed {
+		return
+	}
+	// The routes for the CIDRs inside the block depend on the block's node (it decides whether
+	// they are borrowed and contributes to their type), so they need to be recalculated too.
+	r.markDescendantsDirty(cidr)
 }
 
 func (r *RouteTrie) RemoveBlockRoute(cidr ip.CIDR) {
-	r.updateCIDR(cidr, func(ri *RouteInfo) {
+	// Collect the CIDRs inside the block before the update: the block's own trie node may be
+	// cleaned up by it.
+	descendants := r.descendants(nil, cidr)
+	changed := r.updateCIDR(cidr, func(ri *RouteInfo) {
 		// The datastore constraints guarantee that we only see one Block for a CIDR.
 		ri.Blocks = nil
 	})
+	if !changed {
+		return
+	}
+	for _, c := range descendants {
+		r.MarkCIDRDirty(c)
+	}
+}
+
+// descendants appends all the CIDRs with data that are strictly inside the given CIDR to buf.
+// Unlike markChildrenDirty, it only walks the sub-tree below the CIDR.
+func (r *RouteTrie) descendants(buf []ip.CIDR, cidr ip.CIDR) []ip.CIDR {
+	if cidr == nil {
+		return buf
+	}
+	trie := r.trieForCIDR(cidr)
+	start := len(buf)
+	buf = trie.ClosestDescendants(buf, cidr)
+	end := len(buf)
+	for i := start; i < end; i++ {
+		buf = r.descendants(buf, buf[i])
+	}
+	return buf
+}
+
+func (r *RouteTrie) markDescendantsDirty(cidr ip.CIDR) {
+	for _, c := range r.descendants(nil, cidr) {
+		r.MarkCIDRDirty(c)
+	}
 }
 
 func (r *RouteTrie) AddHost(cidr ip.CIDR, nodeName string) {
